@@ -41,15 +41,17 @@ Definition kind_of (w : N) : kind := if w / two31 =? 0 then Regular else Direct.
 
 (** * Closing: what a10 asks for (src/io_uring/io.rs, src/io_uring/fd.rs) *)
 
-(** The two fields of a CLOSE submission that name the target (everything else is zeroed by
-    [Submission::reset]). *)
-Record csqe := { sqe_fd : N; sqe_file_index : N }.
+(** The fields of a CLOSE submission that name the target, and whether it carries
+    IOSQE_FIXED_FILE (everything else is zeroed by [Submission::reset]). Neither [Drop for AsyncFd]
+    nor [CloseOp] goes through [fd::Kind::use_flags]: the flag is never set, whatever the kind —
+    a direct descriptor is named by [file_index], not by the flag. *)
+Record csqe := { sqe_fd : N; sqe_file_index : N; sqe_fixed : bool }.
 
 (** [close_file_fd]: regular => [sqe.fd = fd]; direct => [file_index = (fd + 1) as u32]. *)
 Definition close_sqe (fd : N) (k : kind) : csqe :=
   match k with
-  | Regular => {| sqe_fd := fd; sqe_file_index := 0 |}
-  | Direct => {| sqe_fd := 0; sqe_file_index := trunc32 (fd + 1) |}
+  | Regular => {| sqe_fd := fd; sqe_file_index := 0; sqe_fixed := false |}
+  | Direct => {| sqe_fd := 0; sqe_file_index := trunc32 (fd + 1); sqe_fixed := false |}
   end.
 
 (** The synchronous fallback of [Drop for AsyncFd] when the submission queue is full:
@@ -61,10 +63,12 @@ Definition fallback_close (fd : N) (k : kind) : syscall :=
 
 (** * Closing: what the kernel does with it (io_uring ABI, independent of the above) *)
 
-(** io_close_prep / io_close: [file_index = 0] closes the regular descriptor [sqe.fd];
-    otherwise it clears direct slot [file_index - 1]; both set is refused with EINVAL. *)
+(** io_close_prep / io_close: a request with IOSQE_FIXED_FILE is refused (EBADF: nothing is
+    closed); [file_index = 0] closes the regular descriptor [sqe.fd]; otherwise it clears direct
+    slot [file_index - 1]; both set is refused with EINVAL. *)
 Definition kernel_close_target (q : csqe) : option desc :=
-  if sqe_file_index q =? 0 then Some (sqe_fd q, Regular)
+  if sqe_fixed q then None
+  else if sqe_file_index q =? 0 then Some (sqe_fd q, Regular)
   else if sqe_fd q =? 0 then Some (sqe_file_index q - 1, Direct)
   else None.
 
@@ -469,13 +473,13 @@ Definition process_all (s : st) : st * list Z :=
 Definition exec (s : st) (e : qent) : st * list Z :=
   match e with
   | QCloseBg q =>
-      (kclose_opt s (kernel_close_target q), [20; 1; nz (sqe_fd q); nz (sqe_file_index q)]%Z)
+      (kclose_opt s (kernel_close_target q), [20; 1; nz (sqe_fd q); nz (sqe_file_index q); bz (sqe_fixed q)]%Z)
   | QCloseOp c q =>
       let s1 := kclose_opt s (kernel_close_target q) in
       (match nth_error (closes s1) c with
        | Some f => match c_st f with CRunning => set_close s1 c (with_cst f CDone) | _ => s1 end
        | None => s1
-       end, [20; 0; nz (sqe_fd q); nz (sqe_file_index q)]%Z)
+       end, [20; 0; nz (sqe_fd q); nz (sqe_file_index q); bz (sqe_fixed q)]%Z)
   | QCreate i =>
       (match nth_error (ops s) i with
        | Some o => set_op s i (with_kin o true)
